@@ -811,7 +811,12 @@ class RefResolver(object):
                 if part == u"0" or (
                     part.isascii() and part.isdigit() and part[0] != u"0"
                 ):
-                    part = int(part)
+                    try:
+                        part = int(part)
+                    except ValueError:
+                        # more digits than the interpreter converts: no
+                        # array is that long, the lookup below fails
+                        pass
             try:
                 document = document[part]
             except (TypeError, LookupError):
